@@ -62,6 +62,8 @@ def unrt(p):
 
 def pol_term(p):
     k = p[0]
+    if k == "Default":  # class-body `name = value` over an inherited trait: the definition it must amount to (C13-v2)
+        return pol_term(p[2])
     if k == "RT":
         return C("round_trip", pol_term(p[2]))
     if k in ("Python", "Disallow"):
@@ -628,6 +630,153 @@ def rt_classops_corpus():
     return cs
 
 
+def items_classops_corpus():
+    """C13-v3: names a class owns without declaring them in __base_traits__ — the <name>_items event trait of a
+    List declared in the class body — are definitions too: add_class_trait of such a name on the class raises,
+    on a base class it skips the subclass that owns it."""
+    cs = []
+    I, S, A5 = ["Typed", "VInt", 7], ["Typed", "VStr", 102], ["Any", 5]
+    for root in (0, 1, 2):
+        for pol in (I, S, A5, ["ReadOnly"], ["Constant", 3]):
+            # class 3 plain, class 4(3) declares ab = List(Int): owns ab and ab_items
+            cs.append({"classes": [{"decls": [], "bases": [root]}, {"decls": [["ab", ["List"]]], "bases": [3]},
+                                   {"decls": [], "bases": [4]}], "objs": [4, 3, 5], "cls": 4,
+                       "kind": "items-classops-corpus",
+                       "ops": [["AddClass", "ab_items", pol, 3], ["Get", "ab_items", "#0"], ["Set", "ab_items", 200, "#0"],
+                               ["Set", "ab_items", 5, "#0"], ["Get", "ab_items", "#1"], ["Set", "ab_items", 5, "#1"],
+                               ["Get", "ab_items", "#2"], ["Set", "ab_items", 5, "#2"], ["AddClass", "ab_items", pol, 4],
+                               ["Get", "ab_items", "#0"], ["Set", "ab_items", 5, "#0"], ["Get", "ab", "#0"],
+                               ["AddClass", "ab", pol, 3], ["Get", "ab", "#2"], ["Set", "ab", 5, "#2"]]})
+            cs.append({"classes": [{"decls": [["b", ["List"]]], "bases": [root]}, {"decls": [], "bases": [3]}],
+                       "objs": [3, 4], "cls": 3, "kind": "items-classops-corpus",
+                       "ops": [["AddClass", "b_items", pol, 3], ["Get", "b_items", "#0"], ["Set", "b_items", 5, "#0"],
+                               ["Set", "b_items", 200, "#1"], ["Get", "b_items", "#1"], ["AddClass", "b_items", pol, 4],
+                               ["Get", "b_items", "#1"]]})
+    return cs
+
+
+def abcify(case):
+    """The same case under the ABC variants of the root classes (C13-v1): ABCHasTraits(HasTraits) with no
+    declarations and ABCHasStrictTraits(ABCHasTraits) with `_ = Disallow` become classes 3 and 4 (library classes,
+    described by what they promise); HasTraits -> 3, HasStrictTraits -> 4, user class k -> k + 2."""
+    def mp(b):
+        return {0: 3, 1: 4, 2: 2}[b] if b < NROOTS else b + 2
+    c = json.loads(json.dumps(case))
+    c["classes"] = ([{"lib": "ABCHasTraits", "decls": [], "bases": [0]},
+                     {"lib": "ABCHasStrictTraits", "decls": [["_", ["Disallow"]]], "bases": [3]}]
+                    + [{"decls": cd["decls"], "bases": [mp(b) for b in cd["bases"]]} for cd in case["classes"]])
+    c["cls"] = mp(case["cls"])
+    if "precls" in c:
+        c["precls"] = mp(case["precls"])
+    c["kind"] = "abc-" + case.get("kind", "")
+    return c
+
+
+def abc_corpus():
+    """The demo of C13-v1: an undeclared (misspelled) name on a subclass of ABCHasStrictTraits."""
+    cs = []
+    for decls in ([], [["ab", ["Typed", "VInt", 7]]], [["a_", ["Typed", "VStr", 102]]]):
+        cs.append(abcify({"classes": [{"decls": decls, "bases": [1]}], "cls": 3, "kind": "corpus",
+                          "ops": [["Set", "ba", 101], ["Get", "ba"], ["Get", "b"], ["Set", "ab", 5], ["Get", "ab"],
+                                  ["Del", "ba"], ["Set", "_x", 1], ["Get", "_x"], ["Add", "ba", ["Any", 5]], ["Set", "ba", 1],
+                                  ["Rem", "ba"], ["Set", "ba", 1]]}))
+        cs.append(abcify({"classes": [{"decls": decls, "bases": [0]}, {"decls": [], "bases": [3, 1]}], "cls": 4,
+                          "kind": "corpus", "ops": [["Set", "ba", 101], ["Get", "ba"], ["Set", "ab", 5], ["Get", "ab"]]}))
+    return cs
+
+
+def visible_explicit(classes, k, memo=None):
+    """Explicit names visible in class k (absolute index), own declarations first, then the bases in order, the
+    first base that has the name wins — how update_traits_class_dict merges class traits."""
+    memo = {} if memo is None else memo
+    if k in memo:
+        return memo[k]
+    vis = {}
+    if k >= NROOTS:
+        cd = classes[k - NROOTS]
+        for n, p in cd["decls"]:
+            if not n.endswith("_"):
+                vis[n] = p[2] if p[0] == "Default" else p
+        for b in cd["bases"]:
+            for n, p in visible_explicit(classes, b, memo).items():
+                vis.setdefault(n, p)
+    memo[k] = vis
+    return vis
+
+
+def with_default(p, v):
+    """The definition `p` with default value v, or None when a plain class attribute cannot override it here."""
+    p = unrt(p)
+    if p[0] == "Typed":
+        return ["Typed", p[1], v]
+    if p[0] == "Any":
+        return ["Any", v]
+    if p[0] == "ReadOnly":
+        return ["ReadOnly", v]
+    return None
+
+
+def add_override_class(h, rnd, ctx):
+    """One more class with several bases whose body gives new default values (`name = value`) to traits the bases
+    define — possibly differently: the trait of the FIRST base that has the name is the one re-defaulted (C13-v2)."""
+    classes = json.loads(json.dumps(h["classes"]))
+    n = len(classes)
+    k = NROOTS + n
+    bases_of = {0: [], 1: [0], 2: [0]}
+    for i, cd in enumerate(classes):
+        bases_of[NROOTS + i] = cd["bases"]
+    for _attempt in range(20):
+        bases = rnd.sample(range(NROOTS, k), min(rnd.choice([1, 2, 2, 3]), n))
+        bases_of[k] = bases
+        if c3_mro(bases_of, k, {}) is not None:
+            break
+    else:
+        bases = [k - 1]
+    memo, decls, seen = {}, [], set()
+    for b in bases:
+        for name, p in visible_explicit(classes, b, memo).items():
+            if name in seen:
+                continue
+            seen.add(name)
+            v = rnd.choice([0, 1, 5, 6, 101, 104])
+            q = with_default(p, v)
+            if q is not None and v != 201 and rnd.random() < 0.7:
+                decls.append([name, ["Default", v, q]])
+                ctx.count("default-override:" + q[0])
+    classes.append({"decls": decls, "bases": bases})
+    return {"classes": classes, "cls": k}
+
+
+def override_hierarchy(rnd, ctx):
+    """Two or three classes defining the same explicit names differently, then the overriding class."""
+    names = rnd.sample(["x", "ab", "b", "ba", "aa"], 3)
+    kinds = [["Typed", "VInt", 7], ["Typed", "VStr", 102], ["Any", 5], ["ReadOnly"], ["Typed", "VCInt", 8], ["ReadOnly", 9]]
+    classes = []
+    for i in range(rnd.choice([2, 2, 3])):
+        decls = [[nm, rnd.choice(kinds)] for nm in names if rnd.random() < 0.8]
+        if rnd.random() < 0.3:
+            decls.append([rnd.choice(PREFIXES) + "_", rnd.choice(POLS)])
+        base = rnd.choice([0, 0, 1, 2]) if i == 0 or rnd.random() < 0.7 else NROOTS + rnd.randrange(i)
+        classes.append({"decls": decls, "bases": [base]})
+    return add_override_class({"classes": classes, "cls": NROOTS + len(classes) - 1}, rnd, ctx)
+
+
+def override_corpus():
+    """The demo of C13-v2: A.x = ReadOnly, B.x = Int; class C(A, B): x = 5 re-defaults A's ReadOnly."""
+    I, S, RO = ["Typed", "VInt", 7], ["Typed", "VStr", 102], ["ReadOnly"]
+    cs = []
+    for first, second in ((RO, I), (I, RO), (S, I), (["Any", 5], S), (I, S)):
+        for root in (0, 1):
+            for order in ([3, 4], [4, 3]):
+                top = first if order[0] == 3 else second
+                cs.append({"classes": [{"decls": [["x", first]], "bases": [root]}, {"decls": [["x", second]], "bases": [root]},
+                                       {"decls": [["x", ["Default", 5, with_default(top, 5)]]], "bases": order}],
+                           "cls": 5, "kind": "override-corpus",
+                           "ops": [["Get", "x"], ["Set", "x", 1], ["Get", "x"], ["Set", "x", 101], ["Get", "x"], ["Set", "x", 2],
+                                   ["Del", "x"], ["Get", "x"]]})
+    return cs
+
+
 def plain_names(h, rnd):
     return [n for n in focus_names(h, rnd) if not n.startswith("__")] or ["a"]
 
@@ -864,6 +1013,13 @@ def run(ctx):
         cases += [two_instance_history(rnd.choice(pool), rnd, ctx, maxlen) for _ in range(nstaged)]
         cases += [mapped_history(rnd.choice(pool), rnd, ctx, maxlen) for _ in range(2 * nstaged)]
         cases += [delegate_history(rnd.choice(pool), rnd, ctx, maxlen) for _ in range(nstaged)]
+        # class bodies giving new defaults to inherited traits (C13-v2)
+        cases += override_corpus()
+        opool = [override_hierarchy(rnd, ctx) for _ in range(20 if ctx.tier == "quick" else 200)] + \
+                [add_override_class(rnd.choice(pool), rnd, ctx) for _ in range(20 if ctx.tier == "quick" else 200)]
+        cases += [random_history(rnd.choice(opool), rnd, ctx, maxlen) for _ in range(nstaged)]
+        # the same under the ABC variants of the root classes (C13-v1)
+        cases += abc_corpus() + [abcify(c) for c in cases if rnd.random() < 0.08]
         ctx.count("hierarchies", len(hiers) + len(pool))
     for c in cases:
         ctx.count("case:" + c.get("kind", "replay"))
@@ -896,7 +1052,7 @@ def run(ctx):
         if ctx.replay:
             tcases = cases
         else:
-            tcases = classops_corpus() + rt_classops_corpus() + [classops_history(rnd, ctx, maxlen)
+            tcases = classops_corpus() + rt_classops_corpus() + items_classops_corpus() + [classops_history(rnd, ctx, maxlen)
                                           for _ in range(200 if ctx.tier == "quick" else 3000)]
             for c in tcases:
                 ctx.count("case:" + c["kind"])
